@@ -13,6 +13,9 @@ in : {"op":"loads","s":[cp..]}                 out: {"v":jtree (objects as pair 
      jtree: null/bool/int as above, {"t":"num","v":"tok"}, {"t":"str","v":cps}, {"t":"arr","v":[..]}, {"t":"obj","v":[[cps,jtree]..]}
 in : {"op":"file","mode":"binary"|"text","ext":bool,"msgs":[tree..]}
                                                out: {"calls":[["w",[unit..]] | ["f"] ..]}
+in : {"op":"crash","lens":[n..],"css":[[n..]..],"k":n}   (C11; line i = n_i-1 bytes `97` and a newline)
+                                               out: {"disk":n,"acked":n,"read":n,"steps":n}
+     disk = bytes on disk, read = number of complete lines the reader returns, steps = length of the run
 -/
 open Lean EJ
 
@@ -94,6 +97,15 @@ def handle (j : Json) : Except String Json := do
     pure (Json.mkObj [("calls", Json.arr (calls.map fun
       | .write c => Json.arr #["w", cpsJ c]
       | .flush => Json.arr #["f"]).toArray)])
+  | "crash" =>
+    let lens ← j.getObjValAs? (List Nat) "lens"
+    let css ← j.getObjValAs? (List (List Nat)) "css"
+    let k ← j.getObjValAs? Nat "k"
+    let lines := lens.map fun n => List.replicate (n - 1) 97 ++ [10]
+    let steps := logAll lines css
+    let st := crash k steps
+    pure (Json.mkObj [("disk", st.disk.length), ("acked", st.acked), ("read", (readLines st.disk).length),
+                      ("steps", steps.length)])
   | _ => throw s!"unknown op {op}"
 
 partial def loop (h : IO.FS.Stream) : IO Unit := do
